@@ -1237,6 +1237,10 @@ func main() {
 	if len(os.Args) >= 3 {
 		n, _ = strconv.Atoi(os.Args[2])
 	}
+	if len(os.Args) >= 3 && os.Args[1] == "enum" {
+		enumerate(n)
+		return
+	}
 	if len(os.Args) >= 2 && os.Args[1] == "bloom" {
 		probeMinMaxSet()
 		r := gen.FromEnv(2020)
@@ -1277,5 +1281,95 @@ func main() {
 			in = genSpecial(r, in)
 		}
 		gen.Emit(runCase(i, in))
+	}
+}
+
+// enumerate: bounded-exhaustive stream (thorough tier). One generated record with nk key columns; every condition tree of
+// depth <= 3 (shapes A, A.B, (A.B).C, A.(B.C) with . in {AND, OR}) over the atoms  column op value  where value is the
+// column's value in one of the two index rows that delimit one fragment range and op in a small set.
+func enumerate(nk int) {
+	r := gen.FromEnv(uint64(7700 + nk))
+	var base *CaseIn
+	for {
+		base = genCase(r)
+		if len(base.Types) == nk && len(base.Rows) >= 12 && len(base.Sizes) >= 3 && base.Tag == "" {
+			break
+		}
+	}
+	nf := len(base.Sizes)
+	fs := r.Intn(nf - 1)
+	var bnd []int
+	acc := 0
+	for _, s := range base.Sizes {
+		bnd = append(bnd, acc)
+		acc += s
+	}
+	bnd = append(bnd, len(base.Rows)-1)
+	ops := []string{"=", "!=", "<", ">="}
+	if nk >= 3 {
+		ops = []string{"=", "!=", ">"}
+	}
+	var atoms []*Cond
+	for c := 0; c < nk; c++ {
+		seen := map[string]bool{}
+		for _, row := range []int{bnd[fs], bnd[fs+1]} {
+			v := base.Rows[row][c]
+			if v == nil || seen[*v] {
+				continue
+			}
+			seen[*v] = true
+			for _, op := range ops {
+				atoms = append(atoms, &Cond{Op: op, Col: c, Lit: *v})
+			}
+		}
+	}
+	base.Probes = [][2]int{{fs, fs + 1}, {0, nf}}
+	base.TimeCond = false
+	base.Tag = "enum"
+	id := 0
+	emit := func(c *Cond) {
+		in := *base
+		// deep copy of the tree: runCase writes the encodings into the atoms
+		var cp func(x *Cond) *Cond
+		cp = func(x *Cond) *Cond {
+			y := *x
+			y.Enc = nil
+			if len(x.Args) > 0 {
+				y.Args = []*Cond{cp(x.Args[0]), cp(x.Args[1])}
+			}
+			return &y
+		}
+		in.Cond = cp(c)
+		gen.Emit(runCase(id, &in))
+		id++
+	}
+	bin := func(op string, a, b *Cond) *Cond { return &Cond{Op: op, Args: []*Cond{a, b}} }
+	for _, a := range atoms {
+		emit(a)
+	}
+	for _, o1 := range []string{"and", "or"} {
+		for _, a := range atoms {
+			for _, b := range atoms {
+				emit(bin(o1, a, b))
+				for _, o2 := range []string{"and", "or"} {
+					if o1 == o2 {
+						continue // associativity: (a.b).c with the same connective is covered by the mixed shapes below only once
+					}
+					for _, c := range atoms {
+						emit(bin(o2, bin(o1, a, b), c))
+						emit(bin(o2, c, bin(o1, a, b)))
+					}
+				}
+			}
+		}
+	}
+	for _, o := range []string{"and", "or"} {
+		for _, a := range atoms {
+			for _, b := range atoms {
+				for _, c := range atoms {
+					emit(bin(o, bin(o, a, b), c))
+				}
+			}
+		}
 	}
 }
